@@ -7,7 +7,7 @@
    shape -- a statement about 17 numerical programs, explored by props/c03.py over the product of
    documented option values, with an exact-rational PSD certificate per fitted model. *)
 From Coq Require Import List Reals.
-From ML Require Import Ops Vec VecR MatR Mahalanobis Validate C01Proof C02Proof C06Proof.
+From ML Require Import Ops Vec VecR MatR PSD Cert Hom Mahalanobis Validate C01Proof C02Proof C06Proof.
 From MLgen Require Import Src_query.
 Import ListNotations.
 Open Scope R_scope.
@@ -18,13 +18,17 @@ Definition C03_proved_part : Prop :=
      (forall i j, (i < d)%nat -> (j < d)%nat -> nth i (nth j (M_src d L) []) 0 = nth j (nth i (M_src d L) []) 0) /\
      (forall x, wfvR d x -> 0 <= quadformR (M_src d L) x) /\
      (forall X, length (transform_src L X) = length X /\ Forall (wfvR k) (transform_src L X))) /\
-  (forall n nc k, check_n_components n nc = Ok k <-> (nc = None /\ k = n) \/ (nc = Some k /\ (1 <= k <= n)%nat)).
+  (forall n nc k, check_n_components n nc = Ok k <-> (nc = None /\ k = n) \/ (nc = Some k /\ (1 <= k <= n)%nat)) /\
+  (* soundness of the exact-rational certificate used on every fitted model: a well-formed, exactly
+     symmetric rational matrix whose successive Schur complements all have positive pivots is
+     positive definite as a real matrix *)
+  (forall n (M : list (list QArith_base.Q)), cert_pd n M = true -> PDop n (q2m M)).
 
 Theorem C03_partial : C03_proved_part.
 Proof.
   split.
   - intros k d L HL. destruct (C02_proof k d L HL) as [_ [_ [_ [_ [_ [_ [H7 [H8 [H9 [H10 _]]]]]]]]]].
     auto.
-  - exact n_components_spec.
+  - split; [exact n_components_spec | exact cert_pd_sound].
 Qed.
 Print Assumptions C03_partial.
